@@ -274,3 +274,14 @@ def branch_conditions(node, stop):
                 out.append(normalise_test(p.test, child is p.body))
         child, p = p, getattr(p, "_parent", None)
     return out
+
+
+def resolve_value(fnode, e, depth=0):
+    """an expression with a local name replaced by its defining expression when the name has exactly one plain binding in the
+    function (so that `n = norm(x); y = x / n` and `y = x / norm(x)` read the same); other expressions are returned unchanged"""
+    if isinstance(e, ast.Name) and depth < 4:
+        asg = assignments(fnode, into_nested=False).get(e.id, [])
+        plain = [v for v, path, st in asg if path is None and not isinstance(v, ast.AugAssign)]
+        if len(asg) == 1 and len(plain) == 1:
+            return resolve_value(fnode, plain[0], depth + 1)
+    return e
